@@ -23,6 +23,13 @@ int verif_command_giver_depth(void);
 extern char *last_verb;
 }
 
+#ifdef SIM_COV
+extern "C" int __llvm_profile_write_file(void);
+#define COV_FLUSH() __llvm_profile_write_file()     // children leave through _exit(): write the counters first
+#else
+#define COV_FLUSH() ((void)0)
+#endif
+
 // ------------------------------------------------------------------ sanitizer defaults
 extern "C" __attribute__((used)) const char *__asan_default_options() {
   return "detect_leaks=0:exitcode=77:abort_on_error=0:halt_on_error=1:detect_stack_use_after_return=0:allocator_may_return_null=1:handle_segv=1:print_stacktrace=1";
@@ -612,14 +619,14 @@ static void run_child(int result_fd) {
       if (st.op == "restart") { gaps.push_back(st.a.size() ? atol(st.a[0].c_str()) : 1); segs.emplace_back(); }
       else segs.back().push_back(st);
     }
-    if (segs.size() == 1) { int rc = sim_main_run(plan); _exit(rc); }
+    if (segs.size() == 1) { int rc = sim_main_run(plan); COV_FLUSH(); _exit(rc); }
     g_root_pid = (int)getpid();
     for (size_t li = 0; li < segs.size(); li++) {
       pid_t lp = fork();
       if (lp == 0) {
         Plan pl = plan; pl.steps = segs[li];
         int rc = sim_main_run(pl, (int)li, li + 1 == segs.size(), li ? gaps[li - 1] : 0);
-        _exit(rc);
+        COV_FLUSH(); _exit(rc);
       }
       int st2 = 0;
       while (waitpid(lp, &st2, 0) < 0 && errno == EINTR) {}
